@@ -179,15 +179,7 @@ func parseLine(p *parser) parseStateFn {
 		p.currentLine.typ = lineEmpty
 		return parseEmptyLines
 	case tokComment:
-		if strings.HasPrefix(p.nextToken.val, ";name") {
-			p.metadata.Name = strings.TrimSpace(p.nextToken.val[5:])
-		} else if strings.HasPrefix(p.nextToken.val, ";author") {
-			p.metadata.Author = strings.TrimSpace(p.nextToken.val[7:])
-		} else if strings.HasPrefix(p.nextToken.val, ";strategy") {
-			if len(p.nextToken.val) > 10 {
-				p.metadata.Strategy += p.nextToken.val[10:] + "\n"
-			}
-		}
+		p.readMetadata(p.nextToken.val)
 		p.currentLine.typ = lineComment
 		return parseComment
 	case tokText:
@@ -197,6 +189,19 @@ func parseLine(p *parser) parseStateFn {
 	default:
 		p.err = fmt.Errorf("line %d: unexpected token: '%s' type %d", p.line, p.nextToken, p.nextToken.typ)
 		return nil
+	}
+}
+
+// readMetadata records the name, author and strategy given in a comment
+func (p *parser) readMetadata(comment string) {
+	if strings.HasPrefix(comment, ";name") {
+		p.metadata.Name = strings.TrimSpace(comment[5:])
+	} else if strings.HasPrefix(comment, ";author") {
+		p.metadata.Author = strings.TrimSpace(comment[7:])
+	} else if strings.HasPrefix(comment, ";strategy") {
+		if len(comment) > 10 {
+			p.metadata.Strategy += comment[10:] + "\n"
+		}
 	}
 }
 
@@ -228,6 +233,9 @@ func parseComment(p *parser) parseStateFn {
 func parseLabels(p *parser) parseStateFn {
 	// just consume newlines and comments for now
 	if p.nextToken.typ == tokNewline || p.nextToken.typ == tokComment {
+		if p.nextToken.typ == tokComment {
+			p.readMetadata(p.nextToken.val)
+		}
 		p.next()
 		return parseLabels
 	}
@@ -272,6 +280,9 @@ func parseColon(p *parser) parseStateFn {
 
 	// just consume newlines and comments for now
 	if p.nextToken.typ == tokNewline || p.nextToken.typ == tokComment {
+		if p.nextToken.typ == tokComment {
+			p.readMetadata(p.nextToken.val)
+		}
 		p.next()
 		return parseColon
 	}
